@@ -12,6 +12,13 @@ def main():
     n1, d1 = games.collect_walk(chk, results, paths)
     results2, paths2 = games.walk_traces(chk, events=400 if q else 20000, files=4 if q else 16, label="deep")
     n2, d2 = games.collect_walk(chk, results2, paths2)
+    # the same positions under different (high) clocks: walks with move repetitions from roots with clocks near 100 -
+    # one position has one key whatever the counters say
+    import os
+    results3, paths3 = games.walk_traces(chk, events=500 if q else 8000, files=2 if q else 8, max_depth=30, label="clocks",
+                                         roots=os.path.join(vlib.VERIF, "data", "roots_c11.txt"))
+    n3, d3 = games.collect_walk(chk, results3, paths3)
+    n2 += n3
     files = games.gen_game(chk, "mixed", behaviours=32 if q else 2000, steps=60, max_depth=10, jvms=4 if q else 16)
     for m, p in games.replay_games(chk, files):
         if "key" in m.get("fields", []) or m["what"] == "panic":
